@@ -27,6 +27,8 @@ pub(crate) struct Batch {
 	// the pipeline overwrites it before the batch is written to WAL.
 	pub(crate) starting_seq_num: u64,
 	pub(crate) size: u64, // Total size of all records (not serialized)
+	// The WAL segment this batch was appended to by this process (not serialized)
+	pub(crate) wal_number: Option<u64>,
 }
 
 impl Default for Batch {
@@ -43,6 +45,7 @@ impl Batch {
 			version: BATCH_VERSION,
 			starting_seq_num,
 			size: 0,
+			wal_number: None,
 		}
 	}
 
@@ -287,6 +290,7 @@ impl Batch {
 			valueptrs,
 			starting_seq_num: seq_num,
 			size: 0, // Decoded batches don't track size
+			wal_number: None,
 		})
 	}
 }
